@@ -70,7 +70,7 @@ def gen_plan(run_seed, idx, tier):
                        'refund_hops': None if rng.chance(1, 2) else
                        sorted(rng.sample(range(8), rng.rng(1, 4))),
                        'timeout': rng.choice([30, 60, 3600]),
-                       'sigfields': [{'sigfield%d' % k: rng.bytes(rng.choice([1, 4, 32, 256, 480])).hex()
+                       'sigfields': [{'sigfield%d' % k: rng.bytes(rng.choice([0, 1, 4, 32, 256, 480])).hex()
                                       for k in rng.sample(range(1, 9), rng.rng(1, 2))}
                                      for _ in range(8)]})
     if len(chains) == 1 and rng.chance(1, 5):
